@@ -38,7 +38,8 @@ def main():
             print(name, 'patch does not apply')
             continue
         try:
-            c = sh([os.path.join(VERIF, 'check'), pid, '--tier', 'quick'], cwd=VERIF)
+            c = sh([os.path.join(VERIF, 'check'), pid, '--tier', 'quick'], cwd=VERIF,
+                   env=dict(os.environ, VERIF_EVIDENCE_DIR='/tmp/seeded-evidence'))
         finally:
             sh(['git', '-C', '/repo', 'checkout', 'HEAD', '--', '.'])
         text = c.stdout.decode('utf-8', 'replace')
